@@ -2,9 +2,12 @@ package rules
 
 import (
 	"go/ast"
+	"go/types"
 	"strings"
 
 	"engcheck/core"
+
+	"golang.org/x/tools/go/types/typeutil"
 )
 
 // serverEffects — effect tables of engine/server.go (routing of a request to
@@ -131,8 +134,12 @@ func serverEffects(c *core.Ctx, R string) {
 		if ws := f["upgraded→onWebSocket"]; ws != nil {
 			g := u.Graph()
 			okConn := false
-			for _, a := range assignsIn(u, func(l ast.Expr) bool { return strings.HasSuffix(selPath(l), ".Conn") }) {
-				if g.Dominates(a.Loc, ws.Loc) && a.Rhs != nil {
+			conns := assignsIn(u, func(l ast.Expr) bool { return strings.HasSuffix(selPath(l), ".Conn") })
+			for _, w := range u.WithHelpers() {
+				conns = append(conns, fieldInits(w, "WebSocketConn.Conn")...)
+			}
+			for _, a := range conns {
+				if (g.Dominates(a.Loc, ws.Loc) || (a.Loc.B == ws.Loc.B && a.Loc.I == ws.Loc.I)) && a.Rhs != nil {
 					d, ok := u.SingleDef(a.Rhs)
 					if te, isT := d.(*core.TupleElem); ok && isT && te.Index == 0 {
 						if ce, isC := ast.Unparen(te.X).(*ast.CallExpr); isC && calleeNameOf(ce) == "Upgrade" {
@@ -143,6 +150,7 @@ func serverEffects(c *core.Ctx, R string) {
 			}
 			c.Check(R, "engine.(*server).HandleUpgrade$callback/wsc.Conn=upgraded-conn≺onWebSocket", ws.Pos(), okConn, "the wrapper carries the upgraded connection before the transport is built on it")
 		}
+		upgraderErrorCallback(c, R, u)
 	}
 	// ---- onWebSocket ----
 	if u := c.Fn(R, srvOnWS); u != nil && localAnchors(c, R, u, "id", "onUpgradeError") {
@@ -443,4 +451,82 @@ func calleeNameOf0(c *ast.CallExpr) string {
 		return id.Name
 	}
 	return calleeNameOf(c)
+}
+
+// upgraderErrorCallback: a websocket handshake that gorilla refuses is answered by
+// the server's own JSON error (emitAbortRequest on the error edge). That holds
+// only while the Upgrader carries an Error callback — without one gorilla answers
+// first, with http.Error's plain text — and the callback leaves the response alone.
+func upgraderErrorCallback(c *core.Ctx, R string, u *core.Unit) {
+	n := 0
+	for _, w := range u.WithHelpers() {
+		info := w.Info()
+		ast.Inspect(w.Body, func(nd ast.Node) bool {
+			cl, ok := nd.(*ast.CompositeLit)
+			if !ok {
+				return true
+			}
+			tv, has := info.Types[cl]
+			if !has || core.TypeName(tv.Type) != "Upgrader" {
+				return true
+			}
+			n++
+			var lit *ast.FuncLit
+			for _, el := range cl.Elts {
+				kv, isKV := el.(*ast.KeyValueExpr)
+				if id, isI := kv.Key.(*ast.Ident); !isKV || !isI || id.Name != "Error" {
+					continue
+				}
+				lit = closureValue(c, w, kv.Value)
+			}
+			silent := false
+			if lit != nil && lit.Type.Params != nil && len(lit.Type.Params.List) > 0 {
+				silent = true
+				for _, nm := range lit.Type.Params.List[0].Names {
+					obj := info.Defs[nm]
+					ast.Inspect(lit.Body, func(x ast.Node) bool {
+						if id, isI := x.(*ast.Ident); isI && obj != nil && info.Uses[id] == obj {
+							silent = false
+						}
+						return true
+					})
+				}
+			}
+			c.Check(R, keyf("%s/Upgrader.Error-set,leaves-the-response-alone", u.Key), cl.Pos(), lit != nil && silent,
+				keyf("Error callback present: %v; its ResponseWriter parameter unused: %v (without the callback gorilla answers a refused handshake itself, ahead of the JSON error)", lit != nil, silent))
+			return true
+		})
+	}
+	c.Need(R, "websocket.Upgrader literals in HandleUpgrade", n, 1)
+}
+
+// closureValue resolves an expression to the function literal it denotes: the literal itself, a local defined once by
+// one, or the call of a private helper that returns one.
+func closureValue(c *core.Ctx, u *core.Unit, e ast.Expr) *ast.FuncLit {
+	e = ast.Unparen(e)
+	if l, ok := e.(*ast.FuncLit); ok {
+		return l
+	}
+	if _, ok := e.(*ast.Ident); ok {
+		if d, k := u.SingleDef(e); k {
+			if dl, isE := d.(ast.Expr); isE && dl != e {
+				return closureValue(c, u, dl)
+			}
+		}
+		return nil
+	}
+	if ce, ok := e.(*ast.CallExpr); ok {
+		if f, _ := typeutil.Callee(u.Info(), ce).(*types.Func); f != nil {
+			if h := c.P.UnitOf(f); h != nil {
+				var lit *ast.FuncLit
+				for _, r := range returnsIn(h) {
+					if len(r.Stmt.Results) == 1 {
+						lit = closureValue(c, h, r.Stmt.Results[0])
+					}
+				}
+				return lit
+			}
+		}
+	}
+	return nil
 }
